@@ -35,6 +35,7 @@ import (
 //	'S' send Size messages of 10 bytes
 //	'P' Size goroutines send 4 messages each, concurrently; wait for all
 //	'Z' start a goroutine that issues CloseSend concurrently with what follows
+//	'u' send one message that the peer's decoder rejects
 type Act struct {
 	Op   byte
 	Size int
@@ -282,6 +283,10 @@ func (x *Exec) runActs(l *RPCLog, side byte, st drpc.Stream, acts []Act, cancel 
 			for i := 0; i < a.Size; i++ {
 				send(10)
 			}
+		case 'u':
+			m := payload.Undecodable(a.Size)
+			ev := l.begin(side, "send-undecodable", a.Size, 0)
+			l.end(ev, st.MsgSend(&m, payload.Enc{}))
 		case 'r':
 			recv()
 		case 'R':
@@ -474,7 +479,7 @@ func Validate(s *Script) bool {
 		}
 		a := me.acts[me.pc]
 		switch a.Op {
-		case 's':
+		case 's', 'u':
 			me.sent++
 			me.pc++
 		case 'S':
